@@ -149,7 +149,8 @@ func (o genOpts) genTemplate(rng *rand.Rand) string {
 	return t
 }
 
-var ruleVerbs = []string{"GET", "GET", "GET", "GET", "POST", "POST", "PUT", "DELETE", "PATCH", "HEAD", "*", "head", "OPTIONS"}
+// custom kinds are verbs whatever their spelling (larking upper-cases the kind)
+var ruleVerbs = []string{"GET", "GET", "GET", "GET", "POST", "POST", "PUT", "DELETE", "PATCH", "HEAD", "*", "head", "OPTIONS", "purge", "Trace", "get", "REPORT"}
 
 // GenRuleSet generates 2..8 methods over 1..3 services with 1..3 rules each.
 func (o genOpts) GenRuleSet(rng *rand.Rand, id int) *RuleSet {
